@@ -36,6 +36,7 @@ LONG = ["u0_core_alu_adder_stage3_carry_lookahead_unit_generate_propagate_bit_17
         "top_cpu0_decode_pipeline_register_bank_1_write_enable_gated_clock_domain_b_n74_x",
         "p" * 76, "q" * 77, "r" * 101, "\\long-escaped-" + "z" * 70]
 VNAMES = [n for n in S.BENIGN if n not in ("buf", "and", "or", "xor", "not", "nand", "nor", "xnor", "input", "output", "wire", "assign", "module", "endmodule")]
+VNAMES += ["tie_hi", "tie_lo", "tie_sel", "tie_00", "tie_"]  # close to the reader's reserved tie_0/tie_1/tie_x, but ordinary
 HELPERLIKE = []
 for _op in ("and", "or", "xor"):
     for _x in "abc":
@@ -43,7 +44,7 @@ for _op in ("and", "or", "xor"):
             if _x != _y:
                 HELPERLIKE += [f"{_op}_{_x}_{_y}", f"{_op}_{_x}_{_y}_0"]
 HELPERLIKE += ["not_a", "not_b", "not_a_0", "and_and_a_b_c", "xor_xor_a_b_c", "or_or_a_b_c", "and_c_and_a_b", "not_and_a_b",
-               "mux_o_a_b_c", "not_xor_a_b", "not_or_a_b", "and_a_b_c", "g_0", "g_1"]
+               "mux_o_a_b_c", "not_xor_a_b", "not_or_a_b", "and_a_b_c", "g_0", "g_1", "tie_hi", "tie_a"]
 ESC = S.ESCAPED + ["\\g_0", "\\and", "\\1'b0", "\\a&b", "\\~n", "\\assign"]
 
 
@@ -106,7 +107,9 @@ def _case(draw, ctx):
                                min_fanin_nary=2 if dense else 1, consts=not dense, shuffle=not dense,
                                const_types=("0", "1", "0", "1", "x") if draw(st.integers(0, 5)) == 0 else ("0", "1"),
                                max_insts=draw(st.sampled_from([0, 0, 1, 2])), unconnected_pins=draw(st.booleans()),
-                               io_outputs=True, name=draw(st.sampled_from(["c", "top", "my_circuit", "C17"]))))
+                               io_outputs=True, name=draw(st.sampled_from(["c", "top", "my_circuit", "C17"])),
+                               # Verilog is case sensitive: cells called BUF or Nand are not the primitives
+                               bb_type_names=draw(st.sampled_from([None, None, ["DFF", "BUF", "Nand", "AND", "INVX1", "dff_r", "Xor", "NOT", "mux2", "Or"]]))))
     if dense:
         # aim: a net named like the gate the reader will synthesise for the first two operands of a
         # >= 3-input gate, and another one named like that name's first uniquified form
